@@ -49,6 +49,43 @@ func ruleR02bResolve(c *Ctx, rule string, fn *ssa.Function) {
 		c.undecided(rule, "ResolveResources:involved-map", fn.Pos(), fmt.Sprintf("expected exactly one map[machine.Address]string (the involved-accounts map) in ResolveResources, found %d", nMaps))
 		return
 	}
+	// the map itself, or a load of the cell it lives in when a closure captures it (also from inside that closure)
+	var imapCell *ssa.Alloc
+	for _, r := range *imap.Referrers() {
+		if st, ok := r.(*ssa.Store); ok && st.Val == ssa.Value(imap) {
+			if a, ok := st.Addr.(*ssa.Alloc); ok && singleStore(a) == ssa.Value(imap) {
+				imapCell = a
+			}
+		}
+	}
+	isImap := func(v ssa.Value) bool {
+		if v == ssa.Value(imap) {
+			return true
+		}
+		u, ok := v.(*ssa.UnOp)
+		if !ok || u.Op != token.MUL || imapCell == nil {
+			return false
+		}
+		if u.X == ssa.Value(imapCell) {
+			return true
+		}
+		if fv, ok := u.X.(*ssa.FreeVar); ok {
+			lit := fv.Parent()
+			for i, f := range lit.FreeVars {
+				if f != fv || lit.Parent() == nil {
+					continue
+				}
+				for _, b := range lit.Parent().Blocks {
+					for _, ins := range b.Instrs {
+						if mc, ok := ins.(*ssa.MakeClosure); ok && mc.Fn == ssa.Value(lit) && i < len(mc.Bindings) && mc.Bindings[i] == ssa.Value(imapCell) {
+							return true
+						}
+					}
+				}
+			}
+		}
+		return false
+	}
 	// the append of the resolved value to m.Resources: find stores of `append(load m.Resources, …)` into m.Resources
 	var phi *ssa.Phi
 	var appendCall *ssa.Call
@@ -150,8 +187,9 @@ func ruleR02bResolve(c *Ctx, rule string, fn *ssa.Function) {
 			obl.expect("ResolveResources:clause:"+cl.label, cl.val.Pos(), "exempt: concrete non-account value")
 		}
 	}
-	valueReaches := func(from ssa.Value, target ssa.Value) bool {
+	valueReaches := func(pc *PathCtx, from ssa.Value, target ssa.Value) bool {
 		for d := 0; d < 8 && from != nil; d++ {
+			from = pc.Resolve(from)
 			if from == target {
 				return true
 			}
@@ -175,6 +213,16 @@ func ruleR02bResolve(c *Ctx, rule string, fn *ssa.Function) {
 		return false
 	}
 	pr := &PathRule{
+		// a local closure that records the account (`trackAccount(idx, val)`) is analysed inline
+		Inline: func(ci ssa.CallInstruction) []*ssa.Function {
+			if ci.Common().IsInvoke() {
+				return nil
+			}
+			if lit := closureOf(ci.Common().Value, 0); lit != nil && lit.Parent() == fn {
+				return []*ssa.Function{lit}
+			}
+			return nil
+		},
 		Step: func(pc *PathCtx, s uint64, ins ssa.Instruction) uint64 {
 			if v, ok := ins.(ssa.Value); ok {
 				if i, ok := index[v]; ok {
@@ -183,9 +231,9 @@ func ruleR02bResolve(c *Ctx, rule string, fn *ssa.Function) {
 			}
 			switch x := ins.(type) {
 			case *ssa.MapUpdate:
-				if x.Map == ssa.Value(imap) {
+				if isImap(x.Map) {
 					for _, t := range tracked {
-						if valueReaches(x.Value, t.v) {
+						if valueReaches(pc, x.Value, t.v) {
 							s |= rec(t.idx)
 						}
 					}
@@ -210,7 +258,7 @@ func ruleR02bResolve(c *Ctx, rule string, fn *ssa.Function) {
 				// v.GetType() == TypeAccount
 				if call, ok := f.X.(*ssa.Call); ok && call.Call.IsInvoke() && call.Call.Method.Name() == "GetType" {
 					if n, ok := constInt(f.Y); ok && n == taVal {
-						if i, ok := index[call.Call.Value]; ok && !f.Eq {
+						if i, ok := index[pc.Resolve(call.Call.Value)]; ok && !f.Eq {
 							s |= notacc(i)
 						}
 					}
@@ -220,7 +268,7 @@ func ruleR02bResolve(c *Ctx, rule string, fn *ssa.Function) {
 					if ta, ok := e.Tuple.(*ssa.TypeAssert); ok && ta.CommaOk && types.Identical(ta.AssertedType, accT) {
 						if b, isB := constBool(f.Y); isB {
 							isAcc := (b == f.Eq)
-							if i, ok := index[ta.X]; ok && !isAcc {
+							if i, ok := index[pc.Resolve(ta.X)]; ok && !isAcc {
 								s |= notacc(i)
 							}
 						}
@@ -250,11 +298,11 @@ func ruleR02bResolve(c *Ctx, rule string, fn *ssa.Function) {
 		for _, ins := range b.Instrs {
 			switch x := ins.(type) {
 			case *ssa.Range:
-				if x.X == ssa.Value(imap) {
+				if isImap(x.X) {
 					rangeOK = true
 				}
 			case *ssa.Lookup:
-				if x.X == ssa.Value(imap) {
+				if isImap(x.X) {
 					// index: load of IndexAddr over load of field Sources
 					if u, ok := x.Index.(*ssa.UnOp); ok && u.Op == token.MUL {
 						if ia, ok := u.X.(*ssa.IndexAddr); ok {
@@ -318,9 +366,26 @@ func ruleR02bCompiler(c *Ctx) {
 	}
 	// who may emit
 	allowed := map[string]bool{"VisitSource": true, "TakeFromSource": true}
+	// a helper that is only ever called (transitively) from the source visitor belongs to it
+	var onlyFromSourceVisitor func(fn *ssa.Function, depth int) bool
+	onlyFromSourceVisitor = func(fn *ssa.Function, depth int) bool {
+		if allowed[origName(fn)] && fnPkgPath(fn) == pkgCompiler {
+			return true
+		}
+		sites := c.CallersOf(fn)
+		if len(sites) == 0 || depth > 4 {
+			return false
+		}
+		for _, s := range sites {
+			if s.Parent() == nil || !onlyFromSourceVisitor(s.Parent(), depth+1) {
+				return false
+			}
+		}
+		return true
+	}
 	for _, e := range opEmissions(c) {
 		if e.isOK && (e.op == takeAll || e.op == takeAlways) {
-			c.check(allowed[origName(e.fn)] && fnPkgPath(e.fn) == pkgCompiler, rule, "compiler:"+fnName(e.fn)+":may-emit-withdrawals", e.ins.Pos(), "withdrawal opcodes are emitted by the source visitor only", "a withdrawal opcode is emitted outside the source visitor: the debited account is not declared in Program.Sources and is not write-locked")
+			c.check(onlyFromSourceVisitor(e.fn, 0), rule, "compiler:"+fnName(e.fn)+":may-emit-withdrawals", e.ins.Pos(), "withdrawal opcodes are emitted by the source visitor only", "a withdrawal opcode is emitted outside the source visitor: the debited account is not declared in Program.Sources and is not write-locked")
 		}
 	}
 	// the needed-accounts map: the MakeMap whose range feeds p.sources
